@@ -275,7 +275,8 @@ func (tx *Tx) RangeScan(bucket string, start, end []byte) (es Entries, err error
 func (tx *Tx) rangeScanOnDisk(bucket string, start, end []byte) ([]*Entry, error) {
 	var result []*Entry
 
-	bptSparseIdxGroup := tx.db.BPTreeRootIdxes
+	// sort a copy: the slice is shared by all concurrent read-only transactions
+	bptSparseIdxGroup := append([]*BPTreeRootIdx(nil), tx.db.BPTreeRootIdxes...)
 
 	SortFID(bptSparseIdxGroup, func(p, q *BPTreeRootIdx) bool {
 		return p.fID > q.fID
@@ -307,7 +308,8 @@ func (tx *Tx) prefixScanOnDisk(bucket string, prefix []byte, offsetNum int, limi
 	var result []*Entry
 	var off int
 
-	bptSparseIdxGroup := tx.db.BPTreeRootIdxes
+	// sort a copy: the slice is shared by all concurrent read-only transactions
+	bptSparseIdxGroup := append([]*BPTreeRootIdx(nil), tx.db.BPTreeRootIdxes...)
 	SortFID(bptSparseIdxGroup, func(p, q *BPTreeRootIdx) bool {
 		return p.fID > q.fID
 	})
@@ -344,7 +346,8 @@ func (tx *Tx) prefixSearchScanOnDisk(bucket string, prefix []byte, reg string, o
 	var result []*Entry
 	var off int
 
-	bptSparseIdxGroup := tx.db.BPTreeRootIdxes
+	// sort a copy: the slice is shared by all concurrent read-only transactions
+	bptSparseIdxGroup := append([]*BPTreeRootIdx(nil), tx.db.BPTreeRootIdxes...)
 	SortFID(bptSparseIdxGroup, func(p, q *BPTreeRootIdx) bool {
 		return p.fID > q.fID
 	})
